@@ -316,6 +316,13 @@ def finish(prop, results, meta, tier, seed, t0):
                val_samples=0, val_real_ok=0, val_exact_ok=0, tasks=len(results), unknown_branches=0)
     functions, hashes, assumptions, covers_unmet, samples = set(), {}, [], [], []
     per_harness = {}
+    if os.environ.get("VERIF_VERBOSE"):
+        for r in results:
+            if "infra_error" not in r:
+                unk = {k: v for k, v in r["obligations"].items() if v["unknown"] or v["sat"]}
+                print(f"TASK {r['harness']} {json.dumps(r['cfg'])} paths={r['paths']} wall={r['wall_s']} "
+                      f"solver={r['solver_s']} q={r['queries']} trunc={r['truncated']} inconcl={r['inconclusive']} "
+                      f"notes={r['notes'][:2]} open={json.dumps(unk)[:300]}")
     for r in results:
         if "infra_error" in r:
             harness_errors.append(f"{r['harness']} {r['cfg']}: {r['infra_error']}\n{r.get('tb', '')}")
@@ -394,10 +401,16 @@ def finish(prop, results, meta, tier, seed, t0):
         path = os.path.join(VERIF, "replays", f"{prop}-{hid}.json")
         with open(path, "w") as fp:
             fp.write(blob)
+        exit_code = 1
+        if len(seen_v) > 6:
+            continue
         print(f"VIOLATION property={prop} replay={path}")
         print(f"  harness={v['harness']} cfg={json.dumps(v['cfg'])} failed={[f['name'] for f in v['failed']][:4]} "
               f"witness={json.dumps(v['witness'])[:300]}")
         exit_code = 1
+    if len(seen_v) > 6:
+        print(f"... {len(seen_v) - 6} further violating (harness, configuration, obligation) combinations; replay "
+              f"files written under {os.path.join(VERIF, 'replays')}")
     if harness_errors and exit_code == 0:
         exit_code = 2
     for e in harness_errors[:40]:
